@@ -237,7 +237,33 @@ func ruleR15b(c *Ctx, rule string) {
 		if !ok {
 			return ""
 		}
-		f, _ := anyFieldRead(ia.X)
+		src := ia.X
+		// the slice a helper ranges over is its parameter (`releaseRead(accounts []string)`): what its callers pass
+		if p, isParam := src.(*ssa.Parameter); isParam && p.Parent() != nil {
+			names := map[string]bool{}
+			for _, cs := range c.CallersOf(p.Parent()) {
+				if i := paramIndex(p); i >= 0 && i < len(cs.Common().Args) {
+					f, _ := anyFieldRead(cs.Common().Args[i])
+					switch {
+					case sameField(f, fRead):
+						names["Read"] = true
+					case sameField(f, fWrite):
+						names["Write"] = true
+					default:
+						names["?"] = true
+					}
+				}
+			}
+			if len(names) == 1 {
+				for n := range names {
+					if n != "?" {
+						return n
+					}
+				}
+			}
+			return ""
+		}
+		f, _ := anyFieldRead(src)
 		switch {
 		case sameField(f, fRead):
 			return "Read"
